@@ -201,6 +201,20 @@ def run(ctx, model_ok=True):
         form = int(rng.integers(3))
         sys_arg = S[0] if (len(S) == 1 and form == 0) else (np.array(S) if form == 1 else S)
         check_pt(ctx, rd, cd, sys_arg, dim_form, str(rng.choice(["int64", "float64", "complex128", "object"])))
+    # many subsystems (most of dimension 1, square input): the subsystems that are not transposed keep their places for any n
+    # (a complement listed in set-iteration order is ascending only up to 8 subsystems)
+    mrng = rng.spawn(1)[0]
+    for it in range(150 if quick else 800):
+        n = int(mrng.integers(6, 13))
+        rd = [1] * n
+        big = [int(x) for x in mrng.choice(n, size=int(mrng.integers(2, 5)), replace=False)]
+        for b, d in zip(big, [2, 3, 2, 2]):
+            rd[b] = d
+        if it % 3 == 0 and n >= 9:
+            rd[n - 1] = 3     # unequal dimensions inside a complement that contains the last subsystem
+        k = int(mrng.integers(1, n))
+        S = [int(x) for x in (mrng.permutation(n)[:k] if it % 2 else np.arange(k))]
+        check_pt(ctx, rd, list(rd), S, "list", str(mrng.choice(["int64", "complex128"])))
     for it in range(60 if quick else 300):
         d0, d1 = int(rng.integers(1, 6)), int(rng.integers(1, 6))
         if d0 * d1 < 2:
